@@ -58,6 +58,63 @@ fn main() {
                 Err(o) => println!("compile: {}", o.show()),
             }
         }
+        "smoke" => {
+            // rvmon smoke <cases> <threads> : small deterministic workload for Miri / ASan
+            // (UB and data-race interpreters are ~10^4 x slower: a few hundred operations)
+            let cases: u64 = args.get(2).and_then(|s| s.parse().ok()).unwrap_or(60);
+            let threads: usize = args.get(3).and_then(|s| s.parse().ok()).unwrap_or(4);
+            let mut outcomes = std::collections::BTreeMap::<String, u64>::new();
+            for i in 0..cases {
+                let mut rng = rng::Rng::new(rng::mix(&[0x5eed, i]));
+                let vars = gen::random_vars(&mut rng, 2);
+                let cfg = gen::GenCfg::basic(vars.clone());
+                let ty = gen::random_ty(&mut rng, 1);
+                let e = gen::Gen::new(&mut rng, cfg).expr(&ty, 2);
+                let src = gen::render(&e, gen::Ws::Pretty, gen::Parens::Minimal, None).text;
+                let binds = gen::random_binds(&mut rng, &vars, true);
+                let out = mon::run1(&src, &binds);
+                *outcomes.entry(out.class().split(':').next().unwrap().to_string()).or_insert(0) += 1;
+                if let Ok(p) = mon::compile(&src) {
+                    // serde round trip under the interpreter as well
+                    if let Ok(j) = serde_json::to_string(&p) {
+                        let _ = serde_json::from_str::<rscel::Program>(&j);
+                    }
+                }
+            }
+            let mut c = rscel::CelContext::new();
+            let mut names = Vec::new();
+            let nprogs: usize = args.get(4).and_then(|s| s.parse().ok()).unwrap_or(40);
+            for (i, s) in corpus::CORPUS.iter().enumerate().take(nprogs) {
+                if !s.contains("now()") && !s.contains("timestamp()") && c.add_program_str(&format!("p{}", i), s).is_ok() {
+                    names.push(format!("p{}", i));
+                }
+            }
+            let reference: Vec<String> = {
+                let b = mon::bind_ctx(&props::c01::corpus_binds());
+                names.iter().map(|n| mon::exec_prog(&mut c, n, &b).canon()).collect()
+            };
+            let mut hs = Vec::new();
+            for _ in 0..threads {
+                let mut cc = c.clone();
+                let names = names.clone();
+                let reference = reference.clone();
+                hs.push(std::thread::spawn(move || {
+                    let b = mon::bind_ctx(&props::c01::corpus_binds());
+                    let mut diffs = 0u64;
+                    for (k, n) in names.iter().enumerate() {
+                        if mon::exec_prog(&mut cc, n, &b).canon() != reference[k] {
+                            diffs += 1;
+                        }
+                    }
+                    diffs
+                }));
+            }
+            let diffs: u64 = hs.into_iter().map(|h| h.join().unwrap_or(1_000_000)).sum();
+            println!("SMOKE cases={} threads={} thread_programs={} thread_diffs={} outcomes={:?}", cases, threads, names.len(), diffs, outcomes);
+            if diffs > 0 {
+                std::process::exit(3);
+            }
+        }
         "ladder" => {
             // rvmon ladder <kind> <depth> [thread]  (probe: prints the outcome or dies)
             let kind = &args[2];
